@@ -173,6 +173,7 @@ PALETTE = [
     ["numstr-exp", "1e3"], ["numstr-neg", "-3"], ["liststr", "[1, 2]"], ["quoted", "'q'"], ["expr", "1+1"],
     ["name", "len"], ["empty", ""], ["strlist", ["1", "2.5", "x"]], ["strlist2", ["[1, 2]", "", "-3"]],
     ["npscalar", "np:1.5"], ["nparray", "np:[1.0, 2.0]"],
+    ["mixlist", [3, "4", "2.5"]], ["mixtuple", (0.5, "5.0")],          # numbers first, numeric text later
 ]
 PAL = dict((n, v) for n, v in PALETTE)
 SHORT_VALUES = ["int", "str", "liststr", "strlist", "numstr-float"]          # value alphabet of the last op of longer sequences
@@ -714,6 +715,12 @@ def entry_cases(tier):
             for mode in ("product", "sequential"):
                 cases.append({"part": "entry", "ep": "multisweep", "det": "ccd", "key": "pipeline.photon_collection.p1.arguments.i",
                               "kcls": "valid", "order": list(order), "exec": ex, "mode": mode})
+    # ONE Observation object used twice: after the first run the swept model is disabled / the swept argument's model is
+    # replaced by one that does not declare it - the second run must be refused like a first one
+    for how in ("attribute", "set", "override"):
+        for ex in ("seq", "dask"):
+            cases.append({"part": "entry", "ep": "resweep", "det": "ccd", "key": "pipeline.photon_collection.p1.arguments.i",
+                          "kcls": "disabled-model", "how": how, "exec": ex, "mode": "product"})
     # overrides combined with the calibration mode (valid keys must reach every evaluated pipeline, invalid ones must
     # be refused before the first evaluation)
     for key, kcls in (("detector.environment.temperature", "valid"), ("pipeline.charge_collection.cm.arguments.i", "valid"),
@@ -750,7 +757,7 @@ def entry_cases(tier):
             c["target"] = ("running-mode" if c["key"].startswith("calibration") else
                            "detector-field" if c["key"].startswith("detector") else "model-argument")
             continue
-        if c["ep"] in ("dupname", "nested", "rerun", "textalias", "multisweep"):
+        if c["ep"] in ("dupname", "nested", "rerun", "textalias", "multisweep", "resweep"):
             c["target"] = "model-argument"
             continue
         src = c["key"] if c["kcls"] in ("valid", "disabled-model") else next(
@@ -1003,6 +1010,8 @@ def run_entry(case):
             outcome = _run_override_cal(case, bad)
         elif ep == "multisweep":
             outcome = _run_multisweep(case, bad)
+        elif ep == "resweep":
+            outcome = _run_resweep(case, bad)
         elif ep == "dupname":
             outcome = _run_sweep(case, det, pipe, before, bad)
         elif ep == "override":
@@ -1215,6 +1224,49 @@ def _seen_temperature(detector, **kw):
     """probe: like cprobes.plain, additionally records the detector temperature the run sees"""
     probes.TRACE.append({"name": detector.current_running_model_name, "kw": probes.tagged(kw), "det": id(detector),
                          "step": int(detector.pipeline_count), "temperature": float(detector.environment.temperature)})
+
+
+def _run_resweep(case, bad):
+    import dask
+    import pyxel
+    from pyxel.observation import Observation, ParameterValues
+    from pyxel.pipelines import Processor
+
+    key = case["key"]
+    det = make_detector("ccd")
+    pipe = mk.pipeline(model_specs())
+    obs = Observation(parameters=[ParameterValues(key=key, values=[11 + _s(), 12 + _s()])], mode=case["mode"],
+                      readout=mk.readout([1.0]), with_dask=(case["exec"] == "dask"))
+    with dask.config.set(scheduler="synchronous"):
+        try:
+            r = pyxel.run_mode(obs, det, pipe, with_inherited_coords=True)
+            for node in r.subtree:
+                node.to_dataset().load()
+        except Exception as e:  # noqa: BLE001
+            bad("valid-sweep-raised", f"the first run of the observation raised {type(e).__name__}: {str(e)[:200]}")
+            return ["first-raised"]
+        kw = {}
+        if case["how"] == "attribute":
+            pipe.photon_collection.p1.enabled = False
+        elif case["how"] == "set":
+            Processor(det, pipe).set("pipeline.photon_collection.p1.enabled", False)
+        else:
+            kw = {"override_dct": {"pipeline.photon_collection.p1.enabled": False}}
+        probes.reset()
+        exc = None
+        try:
+            r = pyxel.run_mode(obs, det, pipe, with_inherited_coords=True, **kw)
+            for node in r.subtree:
+                node.to_dataset().load()
+        except Exception as e:  # noqa: BLE001
+            exc = e
+    trace = list(probes.TRACE)
+    if exc is None:
+        bad("invalid-accepted", f"second run of the same Observation after model p1 was disabled ({case['how']}): the sweep of "
+            f"{key} raised nothing; {len(trace)} model call(s) ran (silent no-op)")
+    elif trace:
+        bad("rejected-after-running", f"the second run raised {type(exc).__name__} only after {len(trace)} model call(s) ran")
+    return ["resweep", type(exc).__name__ if exc else None, len(trace)]
 
 
 def _run_multisweep(case, bad):
